@@ -34,7 +34,7 @@ func (m *Machine) intrinsic(fn *ssa.Function) intrinsicFn {
 	}
 	if fn.Parent() == nil {
 		if mn := mangledName(fn); mn != "" {
-			if stub, ok := m.prog.stubs[mn]; ok {
+			if stub := m.prog.stubFor(mn, m.harnessPkg); stub != nil {
 				return func(m *Machine, caller *frame, _ *ssa.Function, args []Value) Value {
 					return m.callSSA(caller, token.NoPos, stub, args, nil)
 				}
@@ -179,7 +179,11 @@ func init() {
 			return Tuple{m.tt.False, Iface{}}
 		},
 		"allowCrash": func(m *Machine, c *frame, f *ssa.Function, a []Value) Value {
-			m.side["allowCrash"] = a[0].(*Term).IsTrue()
+			m.side["allowCrash"] = m.branch(a[0].(*Term))
+			return nil
+		},
+		"allowDeadlock": func(m *Machine, c *frame, f *ssa.Function, a []Value) Value {
+			m.side["allowDeadlock"] = m.branch(a[0].(*Term))
 			return nil
 		},
 		"spawnEnv": func(m *Machine, c *frame, f *ssa.Function, a []Value) Value {
@@ -542,7 +546,7 @@ func init() {
 			return m.symItoa(t)
 		},
 		"strconv.ParseFloat": func(m *Machine, c *frame, f *ssa.Function, a []Value) Value {
-			if h, ok := m.prog.stubs["strconv_ParseFloat"]; ok {
+			if h := m.prog.stubFor("strconv_ParseFloat", m.harnessPkg); h != nil {
 				return m.callSSA(c, token.NoPos, h, a, nil)
 			}
 			s, ok := a[0].(Str).concrete()
@@ -666,18 +670,24 @@ func (m *Machine) strLastIndex(s, sep Str) int {
 // on the digit count; used for strconv.Itoa(int(vbID)).
 func (m *Machine) symItoa(t *Term) Value {
 	tt := m.tt
-	if m.branch(tt.BvCmp(OBvSlt, t, tt.Const(64, 0))) {
+	w := 64
+	if t.Op == OZext && t.Args[0].S.W >= 8 {
+		// a zero-extended narrower value (e.g. int(uint16)): do the digit arithmetic at its width
+		t = t.Args[0]
+		w = int(t.S.W)
+	} else if m.branch(tt.BvCmp(OBvSlt, t, tt.Const(64, 0))) {
 		m.inconclusive("Itoa of symbolic negative value")
 	}
 	limits := []uint64{10, 100, 1000, 10000, 100000}
 	for nd, lim := range limits {
-		if m.branch(tt.BvCmp(OBvUlt, t, tt.Const(64, lim))) {
+		last := w < 64 && lim > mask(uint8(w))
+		if last || m.branch(tt.BvCmp(OBvUlt, t, tt.Const(w, lim))) {
 			digits := make(Str, nd+1)
 			rem := t
 			for i := nd; i >= 0; i-- {
-				d := tt.BvBin(OBvURem, rem, tt.Const(64, 10))
+				d := tt.BvBin(OBvURem, rem, tt.Const(w, 10))
 				digits[i] = tt.BvBin(OBvAdd, tt.Resize(d, 8, false), tt.Const(8, '0'))
-				rem = tt.BvBin(OBvUDiv, rem, tt.Const(64, 10))
+				rem = tt.BvBin(OBvUDiv, rem, tt.Const(w, 10))
 			}
 			return digits
 		}
